@@ -6,6 +6,11 @@ From Mpv Require Import GenObserve OrderHist Signals.
 Import ListNotations.
 Open Scope nat_scope.
 
+(* keep cbn from evaluating the string comparisons behind the facts (it would, slowly, wherever exec is unfolded on a
+   symbolic continuation) *)
+Arguments delayed_saves_and_restores : simpl never.
+Arguments disable_saves_and_restores : simpl never.
+
 Lemma delayed_spec : delayed_saves_and_restores = true. Proof. vm_compute. reflexivity. Qed.
 Lemma disable_spec : disable_saves_and_restores = true. Proof. vm_compute. reflexivity. Qed.
 Lemma workers_ignore_spec : workers_ignore_sigint = true. Proof. vm_compute. reflexivity. Qed.
@@ -37,12 +42,35 @@ Theorem delivered_at_once fuel k id pend lvl :
   let s := exec (S fuel) (PSig k) (HUser id) pend lvl in raised s = true /\ delivered s = 1.
 Proof. cbn. auto. Qed.
 
+(* one-step unfolding equations: the proofs below never let cbn (or the kernel at Qed) unfold exec on a symbolic
+   continuation, which is exponential in the fuel *)
+Lemma exec_delayed_unfold f body k h pend lvl :
+  exec (S f) (PDelayed body k) h pend lvl =
+  if delayed_saves_and_restores then
+    let s := exec f body (HDelay lvl) pend (S lvl) in
+    let got := existsb (Nat.eqb lvl) (spend s) in
+    let pend' := filter (fun l => negb (l =? lvl)) (spend s) in
+    if got then
+      let '(r, d, x, pend'') := on_signal h pend' in
+      if raised s || r then mkS h pend'' true (delivered s + d) (dropped s + x)
+      else let s2 := exec f k h pend'' lvl in
+           mkS (hnd s2) (spend s2) (raised s2) (delivered s + d + delivered s2) (dropped s + x + dropped s2)
+    else if raised s then mkS h pend' true (delivered s) (dropped s)
+    else let s2 := exec f k h pend' lvl in
+         mkS (hnd s2) (spend s2) (raised s2) (delivered s + delivered s2) (dropped s + dropped s2)
+  else mkS h pend false 0 0.
+Proof. reflexivity. Qed.
+Lemma exec_sig_end_delay f l0 pend lvl :
+  exec (S (S f)) (PSig PEnd) (HDelay l0) pend lvl = mkS (HDelay l0) (l0 :: pend) false 0 0.
+Proof. reflexivity. Qed.
+
+
 (* a signal that arrives inside DelayedKeyboardInterrupt (and not inside an inner Disable block) is not lost: it
    reaches the user's handler when the block is left -- exactly once *)
 Theorem deferred_signal_is_delivered fuel id k :
   let s := exec (S (S (S fuel))) (PDelayed (PSig PEnd) k) (HUser id) [] 0 in
   raised s = true /\ delivered s = 1 /\ dropped s = 0 /\ hnd s = HUser id.
-Proof. cbn [exec]. rewrite delayed_spec. cbn. auto. Qed.
+Proof. intros s; subst s. rewrite exec_delayed_unfold, delayed_spec, exec_sig_end_delay. cbn. auto. Qed.
 
 (* ---- shutdown ledger ---- *)
 Definition clean (l : ledger) : Prop := lworkers l = 0 /\ lthreads l = 0.
